@@ -207,8 +207,21 @@ PAST_FAILURES = [
 ]
 
 
+def relogin_plans():
+    """the same path command, from the same working directory, before and after a re-login as a user with
+    another base directory (carl's home is /pub): nothing resolved for the first login may serve the second"""
+    plans = []
+    cmds = ["MLST x.txt", "DELE x.txt", "MKD zz", "RMD a", "CWD a", "RNFR x.txt", "MLST ../x.txt", "MLST /pub/x.txt"]
+    for c in cmds:
+        plans.append([("cmd", "CWD /pub"), ("cmd", c), ("cmd", "USER carl"), ("cmd", c)])
+        plans.append([("cmd", "CWD /pub"), ("cmd", c), ("cmd", "USER carl"), ("cmd", "USER bob"), ("cmd", "CWD /pub"), ("cmd", c)])
+    for t in ["RETR x.txt", "LIST", "MLSD .", "STOR n.bin"]:
+        plans.append([("cmd", "CWD /pub"), ("late", t, []), ("cmd", "USER carl"), ("late", t, [])])
+    return plans
+
+
 def gen_wire_plans(ctx):
-    plans = [list(p) for p in PAST_FAILURES]
+    plans = [list(p) for p in PAST_FAILURES] + relogin_plans()
     for t in TRANSFERS:
         plans.append([("late", t, [])])
         for i in INTERPOSED:
